@@ -22,6 +22,9 @@ Property sentence → theorem
                                                                                       `tree_journal_alone` (every call of an arbitrary finite call tree ends as the same call alone),
                                                                                       `C07_tree_partial` / `C07_forest_partial` (every call of every tree meets the stateless specification);
                                                                                       `runTree_leaf` / `runForest_leaves`: the tree model extends the history model
+* the same when calls OVERLAP IN TIME without being nested — live generators of one generator function, coroutines of one
+  coroutine function in flight (the yielded values are checks of the call, made later): the outcome of a call does not depend on
+  the schedule                                                                      → `sched_independent`, `sched_outcome_alone`, `sched_complete_alone`, `C07_sched_partial`
 * the whole property as one statement: `C07_full` (refuted: `C07_full_false`), `C07_partial` under `Guard` (= no mismatch at a direct Optional member)
 * former regions, now theorems / positive witnesses: `methodLevelTypeVar_per_call`, `nonGeneric_keeps_bindings_params`, `nonGeneric_keeps_bindings_result`
 * open region, witness: `mismatch_in_optional_witness`
@@ -2090,5 +2093,375 @@ example : ∀ c ∈ demoTree.calls, InVocab envX c ∧ Guard envX c := by
   · exact ⟨vocab_Box1 (by decide), by decide⟩
 
 example : Spec.specCall envX demoTree.call = .tvm ∧ Spec.specBelow envX demoTree = [.accept, .accept, .accept, .accept] := by decide
+
+/-! ## Calls in flight at the same time: the outcome of a call does not depend on the schedule -/
+
+/-- a whole segment with one dict: verdict and agreement on `ks` are kept -/
+theorem runFrom_frame2 (env : Env) (ks : List TVId) : ∀ (checks : List (A × Val)) (m₁ m₂ : TVMap), checksIn ks checks →
+    AgreeOn ks m₁ m₂ → (runFrom env checks m₁).1 = (runFrom env checks m₂).1 ∧ AgreeOn ks (runFrom env checks m₁).2 (runFrom env checks m₂).2 := by
+  intro checks
+  induction checks with
+  | nil => intro m₁ m₂ _ h; exact ⟨rfl, h⟩
+  | cons c rest ih =>
+    obtain ⟨a, v⟩ := c
+    intro m₁ m₂ hall h
+    have hf := isInst_frame env ks a (hall (a, v) (by simp)) v m₁ m₂ h
+    simp only [runFrom]
+    rw [hf.1]
+    cases failure (isInst env a v m₂).1 with
+    | some o => exact ⟨rfl, hf.2⟩
+    | none => exact ih _ _ (fun c hc => hall c (by simp [hc])) hf.2
+
+/-- what the first access of an independent call yields does not depend (on the TypeVars of the call) on what the instance shows -/
+theorem access_agree (c : Call) (hc : Indep c) (a₁ a₂ : TVMap) :
+    AgreeOn (Spec.callTVs c) (accessMap c.kind [] a₁) (accessMap c.kind [] a₂) := by
+  rcases hc with h | h | ⟨params, g, hk, hp⟩
+  · rw [h]; intro t _; rfl
+  · rw [h]; intro t _; simp [accessMap, instanceAccessorSwitch, nonGenericFresh]
+  · rw [hk]
+    simp only [accessMap, instanceAccessorSwitch, ↓reduceIte]
+    intro t _
+    exact rebuild_ext params g _ _ hp t
+
+/-- every remaining check of the job is a check of its call -/
+def Job.Sub (jb : Job) : Prop := ∀ seg ∈ jb.todo, ∀ ch ∈ seg, ch ∈ jb.c.checks
+
+theorem sub_checksIn (jb : Job) (h : jb.Sub) (seg : List (A × Val)) (hs : seg ∈ jb.todo) : checksIn (Spec.callTVs jb.c) seg := by
+  intro ch hch
+  apply tvsIn_of_tvsOf
+  intro t ht
+  simp only [Spec.callTVs, List.mem_flatMap]
+  exact ⟨ch, h seg hs ch hch, ht⟩
+
+def dictRel (ks : List TVId) : Option TVMap → Option TVMap → Prop
+  | none, none => True
+  | some m₁, some m₂ => AgreeOn ks m₁ m₂
+  | _, _ => False
+
+/-- the same job up to the bindings of TypeVars its call never mentions -/
+def JobRel (a b : Job) : Prop :=
+  a.c = b.c ∧ a.eager = b.eager ∧ a.todo = b.todo ∧ a.started = b.started ∧ a.out = b.out ∧ a.priv = b.priv ∧
+  dictRel (Spec.callTVs a.c) a.dict b.dict
+
+theorem dictRel_refl (ks : List TVId) (d : Option TVMap) : dictRel ks d d := by
+  cases d with
+  | none => trivial
+  | some m => intro t _; rfl
+
+theorem dictRel_trans {ks : List TVId} {a b c : Option TVMap} (h1 : dictRel ks a b) (h2 : dictRel ks b c) : dictRel ks a c := by
+  cases a <;> cases b <;> cases c <;> simp only [dictRel] at * 
+  · intro t ht; exact (h1 t ht).trans (h2 t ht)
+
+theorem JobRel.refl (a : Job) : JobRel a a := ⟨rfl, rfl, rfl, rfl, rfl, rfl, dictRel_refl _ _⟩
+
+theorem JobRel.trans {a b c : Job} (h1 : JobRel a b) (h2 : JobRel b c) : JobRel a c := by
+  obtain ⟨a1, a2, a3, a4, a5, a6, a7⟩ := h1
+  obtain ⟨b1, b2, b3, b4, b5, b6, b7⟩ := h2
+  refine ⟨a1.trans b1, a2.trans b2, a3.trans b3, a4.trans b4, a5.trans b5, a6.trans b6, ?_⟩
+  rw [← a1] at b7
+  exact dictRel_trans a7 b7
+
+theorem step_c (env : Env) (jb : Job) (cm attr : TVMap) : (jb.step env cm attr).c = jb.c := by
+  unfold Job.step
+  split
+  · rfl
+  · rfl
+  · simp only [generatorGetsResolvedStore, Bool.not_true, Bool.and_false, Bool.false_and, Bool.false_eq_true, ↓reduceIte]
+    split
+    · rfl
+    · split <;> rfl
+
+theorem step_sub (env : Env) (jb : Job) (cm attr : TVMap) (h : jb.Sub) : (jb.step env cm attr).Sub := by
+  unfold Job.Sub
+  rw [step_c]
+  unfold Job.step
+  split
+  · exact h
+  · exact h
+  · rename_i seg rest _ htodo
+    have hrest : ∀ s ∈ rest, ∀ ch ∈ s, ch ∈ jb.c.checks := fun s hs => h s (by rw [htodo]; simp [hs])
+    simp only [generatorGetsResolvedStore, Bool.not_true, Bool.and_false, Bool.false_and, Bool.false_eq_true, ↓reduceIte]
+    split
+    · exact h
+    · split <;> exact hrest
+
+
+theorem step_rel (env : Env) (a b : Job) (hc : Indep a.c) (hs : a.Sub) (h : JobRel a b) (at₁ at₂ : TVMap) :
+    JobRel (a.step env [] at₁) (b.step env [] at₂) := by
+  obtain ⟨c, e, todo, st, d₁, p, o⟩ := a
+  obtain ⟨c', e', todo', st', d₂, p', o'⟩ := b
+  obtain ⟨h1, h2, h3, h4, h5, h6, h7⟩ := h
+  simp only at h1 h2 h3 h4 h5 h6 h7 hc
+  subst h1 h2 h3 h4 h5 h6
+  cases o with
+  | some x => exact ⟨rfl, rfl, rfl, rfl, rfl, rfl, h7⟩
+  | none =>
+    cases todo with
+    | nil => exact ⟨rfl, rfl, rfl, rfl, rfl, rfl, h7⟩
+    | cons seg rest =>
+      have hseg : checksIn (Spec.callTVs c) seg := sub_checksIn _ hs seg (by simp)
+      cases d₁ with
+      | none =>
+        cases d₂ with
+        | some _ => exact absurd h7 (by simp [dictRel])
+        | none =>
+          simp only [Job.step, generatorGetsResolvedStore, Bool.not_true, Bool.and_false, Bool.false_and, Bool.false_eq_true, ↓reduceIte,
+            Option.isNone_none, Bool.true_and]
+          by_cases hr : (!seg.isEmpty || e && !st) = true
+          · simp only [hr, Bool.true_and, ↓reduceIte]
+            by_cases hsc : isScanFail c = true
+            · simp only [hsc, ↓reduceIte]; exact ⟨rfl, rfl, rfl, rfl, rfl, rfl, trivial⟩
+            · simp only [hsc, Bool.false_eq_true, ↓reduceIte]
+              have hf := runFrom_frame2 env (Spec.callTVs c) seg _ _ hseg (access_agree c hc at₁ at₂)
+              refine ⟨rfl, rfl, rfl, rfl, ?_, rfl, hf.2⟩
+              simp only; rw [hf.1]
+          · simp only [hr, Bool.false_eq_true, Bool.false_and, ↓reduceIte]
+            exact ⟨rfl, rfl, rfl, rfl, rfl, rfl, trivial⟩
+      | some m₁ =>
+        cases d₂ with
+        | none => exact absurd h7 (by simp [dictRel])
+        | some m₂ =>
+          simp only [Job.step, generatorGetsResolvedStore, Bool.not_true, Bool.and_false, Bool.false_and, Bool.false_eq_true, ↓reduceIte,
+            Option.isNone_some]
+          have hf := runFrom_frame2 env (Spec.callTVs c) seg m₁ m₂ hseg h7
+          refine ⟨rfl, rfl, rfl, rfl, ?_, rfl, hf.2⟩
+          simp only; rw [hf.1]
+
+
+/-- the job advanced `k` times ALONE: nothing else in flight, nothing on the instance -/
+def stepsAlone (env : Env) (jb : Job) : Nat → Job
+  | 0 => jb
+  | k + 1 => stepsAlone env (jb.step env [] []) k
+
+theorem stepsAlone_rel (env : Env) : ∀ (k : Nat) (a b : Job), Indep a.c → a.Sub → JobRel a b →
+    JobRel (stepsAlone env a k) (stepsAlone env b k) := by
+  intro k
+  induction k with
+  | zero => intro a b _ _ h; exact h
+  | succ k ih =>
+    intro a b hc hs h
+    simp only [stepsAlone]
+    exact ih _ _ (by rw [step_c]; exact hc) (step_sub env a _ _ hs) (step_rel env a b hc hs h [] [])
+
+theorem advance_self (env : Env) (s : Sys) (i : Nat) (jb : Job) (h : s.jobs[i]? = some jb) :
+    (advance env i s).jobs[i]? = some (jb.step env [] (s.attr (attrKey jb.c))) := by
+  unfold advance
+  rw [h]
+  simp only [perCallFreshMap, ↓reduceIte]
+  have hlt : i < s.jobs.length := by
+    rcases Nat.lt_or_ge i s.jobs.length with hl | hl
+    · exact hl
+    · rw [List.getElem?_eq_none hl] at h; cases h
+  simp [List.getElem?_set_self hlt]
+
+theorem advance_other (env : Env) (s : Sys) (i j : Nat) (hij : j ≠ i) : (advance env j s).jobs[i]? = s.jobs[i]? := by
+  unfold advance
+  cases hj : s.jobs[j]? with
+  | none => rfl
+  | some jb => simp only; exact List.getElem?_set_ne hij
+
+/-- **the outcome of a call does not depend on the schedule**: whatever the order in which the calls in flight advance —
+    other calls of the same function, calls on the same instance, before, between and after the pieces of this call — a plain
+    function / method of a non-generic class / method of an instance `Cls[X]()` is, after the schedule, where the same call
+    is after as many advances made ALONE (up to bindings of TypeVars it never mentions) -/
+theorem sched_independent (env : Env) : ∀ (order : List Nat) (s : Sys) (i : Nat) (jb : Job), s.jobs[i]? = some jb → Indep jb.c → jb.Sub →
+    ∃ jb', (runOrder env order s).jobs[i]? = some jb' ∧ JobRel jb' (stepsAlone env jb (order.count i)) := by
+  intro order
+  induction order with
+  | nil => intro s i jb h _ _; exact ⟨jb, h, JobRel.refl _⟩
+  | cons j rest ih =>
+    intro s i jb h hc hs
+    simp only [runOrder]
+    by_cases hij : j = i
+    · subst hij
+      have h1 := advance_self env s j jb h
+      obtain ⟨jb', hj', hrel⟩ := ih (advance env j s) j _ h1 (by rw [step_c]; exact hc) (step_sub env jb _ _ hs)
+      refine ⟨jb', hj', ?_⟩
+      rw [List.count_cons_self]
+      simp only [stepsAlone]
+      refine hrel.trans (stepsAlone_rel env _ _ _ (by rw [step_c]; exact hc) (step_sub env jb _ _ hs) ?_)
+      exact step_rel env jb jb hc hs (JobRel.refl _) _ _
+    · have h1 : (advance env j s).jobs[i]? = some jb := by rw [advance_other env s i j hij]; exact h
+      obtain ⟨jb', hj', hrel⟩ := ih (advance env j s) i jb h1 hc hs
+      refine ⟨jb', hj', ?_⟩
+      rw [List.count_cons_of_ne hij]
+      exact hrel
+
+/-- … in particular it has ended iff the call alone has, and with the same outcome -/
+theorem sched_outcome_alone (env : Env) (order : List Nat) (s : Sys) (i : Nat) (jb : Job) (h : s.jobs[i]? = some jb)
+    (hc : Indep jb.c) (hs : jb.Sub) :
+    ((runOrder env order s).jobs[i]?).map (·.out) = some (stepsAlone env jb (order.count i)).out := by
+  obtain ⟨jb', hj', hrel⟩ := sched_independent env order s i jb h hc hs
+  rw [hj']
+  simp only [Option.map_some]
+  rw [hrel.2.2.2.2.1]
+
+
+/-! ### … and a schedule that sees a call through ends it as the specification demands -/
+
+theorem step_ended (env : Env) (jb : Job) (cm attr : TVMap) (h : jb.out.isSome = true) : jb.step env cm attr = jb := by
+  unfold Job.step
+  cases ho : jb.out with
+  | none => rw [ho] at h; cases h
+  | some o => rfl
+
+theorem stepsAlone_ended (env : Env) : ∀ (k : Nat) (jb : Job), jb.out.isSome = true → stepsAlone env jb k = jb := by
+  intro k
+  induction k with
+  | zero => intros; rfl
+  | succ k ih => intro jb h; simp only [stepsAlone]; rw [step_ended env jb _ _ h]; exact ih jb h
+
+/-- the dict the remaining checks of a job run with when it is alone -/
+def Job.mapAlone (jb : Job) : TVMap :=
+  match jb.dict with
+  | some m => m
+  | none => accessMap jb.c.kind [] []
+
+/-- a job alone, advanced at least as often as it has pieces left, ends as all its remaining checks run in order with one dict -/
+theorem alone_runs (env : Env) : ∀ (todo : List (List (A × Val))) (jb : Job), jb.todo = todo → todo ≠ [] → jb.out = none →
+    isScanFail jb.c = false → ∀ k, todo.length ≤ k → (stepsAlone env jb k).out = some (runFrom env todo.flatten jb.mapAlone).1 := by
+  intro todo
+  induction todo with
+  | nil => intro jb _ h; exact absurd rfl h
+  | cons seg rest ih =>
+    intro jb htodo _ hout hscan k hk
+    obtain ⟨c, e, todo', st, d, p, o⟩ := jb
+    simp only at htodo hout hscan
+    subst htodo hout
+    cases k with
+    | zero => simp at hk
+    | succ k =>
+      simp only [stepsAlone]
+      have hk' : rest.length ≤ k := by simp at hk; omega
+      -- the job after its next piece
+      cases d with
+      | some m =>
+        simp only [Job.step, generatorGetsResolvedStore, Bool.not_true, Bool.and_false, Bool.false_and, Bool.false_eq_true, ↓reduceIte,
+          Option.isNone_some, Job.mapAlone, List.flatten_cons]
+        cases hr : (runFrom env seg m).1 with
+        | ok =>
+          rw [runFrom_append_ok env _ _ _ hr]
+          cases rest with
+          | nil =>
+            simp only [List.isEmpty_nil, ↓reduceIte, List.flatten_nil, runFrom]
+            rw [stepsAlone_ended env k _ rfl]
+          | cons s2 rest' =>
+            simp only [List.isEmpty_cons, Bool.false_eq_true, ↓reduceIte]
+            exact ih _ rfl (by simp) rfl hscan k hk'
+        | pedTypeCheck => rw [runFrom_append_fail env _ _ _ (by rw [hr]; decide), hr]; rw [stepsAlone_ended env k _ rfl]
+        | pedTVMismatch => rw [runFrom_append_fail env _ _ _ (by rw [hr]; decide), hr]; rw [stepsAlone_ended env k _ rfl]
+        | escape => rw [runFrom_append_fail env _ _ _ (by rw [hr]; decide), hr]; rw [stepsAlone_ended env k _ rfl]
+      | none =>
+        simp only [Job.step, generatorGetsResolvedStore, Bool.not_true, Bool.and_false, Bool.false_and, Bool.false_eq_true, ↓reduceIte,
+          Option.isNone_none, Bool.true_and, hscan, Job.mapAlone, List.flatten_cons]
+        by_cases hres : (!seg.isEmpty || e && !st) = true
+        · simp only [hres, ↓reduceIte]
+          generalize accessMap c.kind [] [] = m
+          cases hr : (runFrom env seg m).1 with
+          | ok =>
+            rw [runFrom_append_ok env _ _ _ hr]
+            cases rest with
+            | nil =>
+              simp only [List.isEmpty_nil, ↓reduceIte, List.flatten_nil, runFrom]
+              rw [stepsAlone_ended env k _ rfl]
+            | cons s2 rest' =>
+              simp only [List.isEmpty_cons, Bool.false_eq_true, ↓reduceIte]
+              exact ih _ rfl (by simp) rfl hscan k hk'
+          | pedTypeCheck => rw [runFrom_append_fail env _ _ _ (by rw [hr]; decide), hr]; rw [stepsAlone_ended env k _ rfl]
+          | pedTVMismatch => rw [runFrom_append_fail env _ _ _ (by rw [hr]; decide), hr]; rw [stepsAlone_ended env k _ rfl]
+          | escape => rw [runFrom_append_fail env _ _ _ (by rw [hr]; decide), hr]; rw [stepsAlone_ended env k _ rfl]
+        · have hse : seg = [] := by
+            cases seg with
+            | nil => rfl
+            | cons _ _ => simp at hres
+          subst hse
+          simp only [hres, Bool.false_eq_true, ↓reduceIte, List.nil_append]
+          cases rest with
+          | nil =>
+            simp only [List.isEmpty_nil, ↓reduceIte, List.flatten_nil, runFrom]
+            rw [stepsAlone_ended env k _ rfl]
+          | cons s2 rest' =>
+            simp only [List.isEmpty_cons, Bool.false_eq_true, ↓reduceIte]
+            exact ih _ rfl (by simp) rfl hscan k hk'
+
+
+/-- a call about to be made whose pieces are exactly its checks, in order -/
+structure Job.Fresh (jb : Job) : Prop where
+  pieces : jb.todo ≠ []
+  flat : jb.todo.flatten = jb.c.checks
+  notEnded : jb.out = none
+  unresolved : jb.dict = none
+  noScan : isScanFail jb.c = false
+
+theorem fresh_sub (jb : Job) (h : jb.todo.flatten = jb.c.checks) : jb.Sub := by
+  intro seg hs ch hch
+  rw [← h]
+  exact List.mem_flatten.mpr ⟨seg, hs, hch⟩
+
+theorem fresh_is_fresh (c : Call) (eager : Bool) (segs : List (List (A × Val))) (h1 : segs ≠ []) (h2 : segs.flatten = c.checks)
+    (h3 : isScanFail c = false) : (Job.fresh c eager segs).Fresh := ⟨h1, h2, rfl, rfl, h3⟩
+
+/-- **a call that the schedule sees through ends as the same call made alone**, whatever else is in flight -/
+theorem sched_complete_alone (env : Env) (order : List Nat) (s : Sys) (i : Nat) (jb : Job) (h : s.jobs[i]? = some jb)
+    (hc : Indep jb.c) (hf : jb.Fresh) (hcount : jb.todo.length ≤ order.count i) :
+    ((runOrder env order s).jobs[i]?).map (·.out) = some (some (runCall env jb.c Stores.empty).1) := by
+  rw [sched_outcome_alone env order s i jb h hc (fresh_sub jb hf.flat)]
+  rw [alone_runs env jb.todo jb rfl hf.pieces hf.notEnded hf.noScan _ hcount]
+  rw [runCall_out_of_not_scan env jb.c Stores.empty hf.noScan, hf.flat]
+  simp only [Job.mapAlone, hf.unresolved]
+  rfl
+
+/-- **the property for calls in flight at the same time, outside the recorded region**: every call in the vocabulary that a
+    schedule sees through — a generator function driven to its end, a coroutine function run to its end — ends as the
+    stateless specification of that call demands (the yielded values are among its checks: they must be compatible with the
+    bindings of the parameters of THIS call and with the `X` of its instance), in every schedule, next to any other calls -/
+theorem C07_sched_partial (env : Env) (wf : EnvWF env) (order : List Nat) (s : Sys) (i : Nat) (jb : Job) (h : s.jobs[i]? = some jb)
+    (hc : Indep jb.c) (hf : jb.Fresh) (hcount : jb.todo.length ≤ order.count i) (hv : InVocab env jb.c) (hg : Guard env jb.c) :
+    ∃ o, ((runOrder env order s).jobs[i]?).map (·.out) = some (some o) ∧ Demands (Spec.specCall env jb.c) o :=
+  ⟨_, sched_complete_alone env order s i jb h hc hf hcount, call_demands env wf jb.c hv hg _⟩
+
+
+/-! ### concrete schedules (the class table of the harness) -/
+
+/-- `def repeat(item: T, r: object) -> Iterator[T]` yielding `item` twice: the parameters when the call is made, then per `next()`
+    the `None` sent in (not the first time) and the yielded value, last the `None` sent in and the `None` returned -/
+private def repeatJob (mk : List (A × Val) → Call) (v : Val) (y₁ y₂ : Val) : Job :=
+  let segs : List (List (A × Val)) := [[(T, v), (.cls 0, .list [y₁, y₂])], [(T, y₁)], [(.cls 1, .inst 1), (T, y₂)], [(.cls 1, .inst 1), (.cls 1, .inst 1)]]
+  Job.fresh (mk segs.flatten) true segs
+
+/-- two live generators of ONE plain function, `T` = int in one and str in the other: both are accepted when they are consumed
+    one after the other, alternately (`zip`), or in any other order -/
+example :
+    ((runOrder envX [0, 0, 0, 0, 1, 1, 1, 1] ⟨[repeatJob plain (.inst 2) (.inst 2) (.inst 2), repeatJob plain (.inst 3) (.inst 3) (.inst 3)], [], []⟩).jobs.map (·.out)
+      = [some .ok, some .ok]) ∧
+    ((runOrder envX [0, 1, 0, 1, 0, 1, 0, 1] ⟨[repeatJob plain (.inst 2) (.inst 2) (.inst 2), repeatJob plain (.inst 3) (.inst 3) (.inst 3)], [], []⟩).jobs.map (·.out)
+      = [some .ok, some .ok]) ∧
+    ((runOrder envX [1, 0, 0, 1, 1, 0, 1, 0] ⟨[repeatJob plain (.inst 2) (.inst 2) (.inst 2), repeatJob plain (.inst 3) (.inst 3) (.inst 3)], [], []⟩).jobs.map (·.out)
+      = [some .ok, some .ok]) := by decide
+
+/-- a generator method of `Box[int]()` (instance 1) that yields a str — or an int first and then a str — is stopped with
+    PedanticTypeVarMismatchException, also while another generator of the same method is alive -/
+example :
+    (runOrder envX [0, 1, 0, 1, 0, 1, 0, 1] ⟨[repeatJob onBox1 (.inst 2) (.inst 2) (.inst 3), repeatJob onBox1 (.inst 2) (.inst 2) (.inst 2)], [], []⟩).jobs.map (·.out)
+      = [some .pedTVMismatch, some .ok] := by decide
+
+example : (repeatJob plain (.inst 2) (.inst 2) (.inst 2)).Fresh ∧ (repeatJob onBox1 (.inst 2) (.inst 2) (.inst 3)).Fresh :=
+  ⟨fresh_is_fresh _ _ _ (by decide) rfl rfl, fresh_is_fresh _ _ _ (by decide) rfl rfl⟩
+
+example : Indep (repeatJob onBox1 (.inst 2) (.inst 2) (.inst 3)).c := indep_of_indepB _ (by decide)
+
+/-- `async def echo(value: S, r: object) -> S`: two coroutines of it in flight on one loop (first step: the parameters;
+    after the await: the result), `S` = int in one, str in the other: both return -/
+example :
+    let echo (v : Val) : Job := Job.fresh (onNG [(S, v), (.cls 0, v), (S, v)]) false [[(S, v), (.cls 0, v)], [(S, v)]]
+    (runOrder envX [0, 1, 0, 1] ⟨[echo (.inst 2), echo (.inst 3)], [], []⟩).jobs.map (·.out) = [some .ok, some .ok] := by decide
+
+/-- recursion: `def nested(value: T, r: object) -> T` (ONE function object, `fn` 0) calls itself with a str while the outer level
+    holds an int, and that level calls itself with a `C1`: every level returns its own value and is accepted — a call tree whose
+    nodes are calls of the same function is just a call tree (`tree_journal_alone`, `C07_tree_partial` apply) -/
+example :
+    let lvl (v : Val) (body : List Tree) : Tree := .node (plain [(T, v), (.cls 0, v), (T, v)]) 2 body
+    (runTree envX (lvl (.inst 2) [lvl (.inst 3) [lvl (.inst 11) []]]) Stores.empty).out = .ok ∧
+    (runTree envX (lvl (.inst 2) [lvl (.inst 3) [lvl (.inst 11) []]]) Stores.empty).log = [some .ok, some .ok] := by decide
 
 end PedVerif.TypeVars
